@@ -34,7 +34,7 @@ class C19(Prop):
             "non-trivial = a sort (or sorting utility) on an object of >= 3 members that was not already sorted, followed by >= 1 append; "
             "distinct by program hash")
     ASSUMPTIONS = ["node order among members with equal keys after a sort is not asserted (the statement does not claim stability)"]
-    REQUIRED_CLASSES = ["sort", "util_sorting", "sort_unsorted>=3", "nontrivial_program", "big_object>10001", "key_family", "patch_test_against_near_copy"]
+    REQUIRED_CLASSES = ["sort", "util_sorting", "sort_unsorted>=3", "nontrivial_program", "big_object>10001", "key_family", "patch_test_against_near_copy", "family_in_monotone_order"]
 
     def budget(self, tier):
         return {"workers": 14, "examples": 700 if tier == "quick" else 15000}
@@ -93,6 +93,10 @@ class C19(Prop):
             keys = [prefix + t for t in (b"b", b"a", b"c")]
         cs = case["cs"]
         fold = (lambda x: x) if cs else model.fold
+        if case["rseed"] % 3 == 0:
+            # members arrive in strictly descending (or ascending) order: the extreme inputs of any sorting algorithm
+            keys.sort(key=fold, reverse=(case["rseed"] % 6 == 0))
+            stats.cls("family_in_monotone_order")
         obj = lib.cJSON_CreateObject()
         for i, k in enumerate(keys):
             lib.cJSON_AddItemToObject(obj, k, lib.cJSON_CreateNumber(float(i)))
@@ -136,7 +140,17 @@ class C19(Prop):
                 fl, _, _ = lib.walk(tree, 1, 1)
                 if fl:
                     raise Violation("structural defects after sorting names with a long common beginning", key="family-structure")
-                # a well-formed container afterwards: an append lands at the end and everything is still there
+                # a well-formed container afterwards: a member in the middle can be taken out and put back, an append lands at the end
+                kids0 = lib.children(tree)
+                if len(kids0) >= 3:
+                    mid = kids0[len(kids0) // 2]
+                    mk = ctypes.string_at(lib.shim_key(mid))
+                    got_mid = lib.cJSON_DetachItemViaPointer(tree, mid)
+                    if got_mid != mid or len(lib.children(tree)) != len(kids0) - 1 or lib.walk(tree, 1, 1)[0]:
+                        raise Violation("taking a middle member out of a freshly sorted object damages it (%d members left of %d)" % (len(lib.children(tree)), len(kids0)), key="family-detach")
+                    lib.cJSON_InsertItemInArray(tree, len(kids0) // 2, mid)
+                    if [k for k in lib.children(tree)] != kids0 or lib.walk(tree, 1, 1)[0]:
+                        raise Violation("putting the member back where it was does not restore the list", key="family-detach")
                 lib.cJSON_AddItemToObject(tree, b"appended afterwards", lib.cJSON_CreateNull())
                 kids = lib.children(tree)
                 if len(kids) != want_n + 1 or ctypes.string_at(lib.shim_key(kids[-1])) != b"appended afterwards":
